@@ -370,6 +370,10 @@ namespace occa {
   bool dtype_t::isCyclic(const dtypeVector_t &vec,
                          const int cycleLength) {
     const int size = (int) vec.size();
+    // A type without entries (e.g. an empty struct or tuple) is no cycle of anything
+    if (cycleLength <= 0) {
+      return false;
+    }
     if ((size % cycleLength) != 0) {
       return false;
     }
